@@ -373,8 +373,8 @@ pub fn check_c07(h: &Hist) -> POut {
                         if f.task == e.task {
                             match &f.kind {
                                 EvKind::Cb { kind, index, .. } => {
-                                    let is_rej = *kind == CbKind::Reject || (h.plan.cfg.callback == CallbackMode::ExitOnly && *kind == CbKind::Exit);
-                                    if is_rej && (*index == *key || h.plan.cfg.callback == CallbackMode::ExitOnly) {
+                                    let is_rej = *kind == CbKind::Reject || (h.plan.cfg.callback != CallbackMode::Full && *kind == CbKind::Exit);
+                                    if is_rej && (*index == *key || h.plan.cfg.callback != CallbackMode::Full) {
                                         rejects += 1;
                                     }
                                 }
@@ -707,6 +707,34 @@ pub fn check_c08(h: &Hist) -> POut {
         }
     } else {
         out.probe("exit_only_callback_variant", 1);
+    }
+    // R6: which callback.  A value the policy refused goes to on_reject - whose default hands it
+    // to on_exit - and never to on_evict (which is for entries that were resident).  Visible
+    // whenever on_evict can be told from the others (Full, ExitEvict).
+    if h.plan.cfg.callback != CallbackMode::ExitOnly {
+        let mut refused: BTreeMap<String, u64> = BTreeMap::new();
+        for e in h.evs {
+            match &e.kind {
+                EvKind::Obs(ObsEv::AddExit { key, added: false, .. }) => {
+                    refused.insert(e.task.clone(), *key);
+                }
+                EvKind::Obs(ObsEv::AddEnter { .. }) | EvKind::Obs(ObsEv::AddExit { added: true, .. }) => {
+                    refused.remove(&e.task);
+                }
+                // the first callback on that task after the refusal is the refusal's own report
+                // (handle_item reports it before it turns to the victims)
+                EvKind::Cb { kind, index, val, .. } if refused.contains_key(&e.task) => {
+                    let key = refused.remove(&e.task).unwrap();
+                    if *kind == CbKind::Evict && *index == key {
+                        out.violations.push(viol("C08", "R6-refused-value-to-on-evict", e.seq, "a value the policy refused was handed to on_evict", format!("on_evict for index {} value {:?} right after policy.add refused it", index, val)));
+                    }
+                    if *kind == CbKind::Exit && h.plan.cfg.callback == CallbackMode::ExitEvict {
+                        out.probe("default_on_reject_forwarded_to_on_exit", 1);
+                    }
+                }
+                _ => {}
+            }
+        }
     }
     out
 }
@@ -1207,7 +1235,14 @@ pub fn check_c05_concurrent(h: &Hist) -> POut {
             if cp.now > deadline {
                 out.nontrivial = true;
             }
-            if cp.now >= deadline + 1_000_000_000 + cleanup + 1_000_000 {
+            // the delay is bounded from the moment the entry was in the store with that deadline:
+            // an item applied late (processor or client stalled in virtual time) can only be
+            // swept by a tick after its application
+            let idx = e.index;
+            let applied_by_processor = h.obs().filter(|(ev, o)| ev.now <= cp.now && ev.seq < cp.seq && matches!(o, ObsEv::AddExit { key, .. } if *key == idx)).map(|(ev, _)| ev.now).max().unwrap_or(0);
+            let applied_by_client = h.ops.iter().filter(|o| matches!(o.op, Op::Insert { .. } | Op::InsertIfPresent { .. }) && o.op.key().map(|k| h.index_of(k)) == Some(idx) && o.returned() && o.ret_seq.unwrap() < cp.seq).map(|o| o.ret_now).max().unwrap_or(0);
+            let base = deadline.max(applied_by_processor).max(applied_by_client);
+            if cp.now >= base + 1_000_000_000 + cleanup + 1_000_000 {
                 out.violations.push(violk("C05", "R2-not-reclaimed-concurrent", cp.seq, e.val.key, "expired entry still resident after bucket width + cleanup interval (several clients, fault-free)", format!("checkpoint {} t={}: {:?} deadline {} cleanup_ms {}", cp.id, cp.now, e.val, deadline, h.plan.cfg.cleanup_ms)));
             }
         }
